@@ -1,0 +1,49 @@
+//go:build verif
+
+package header
+
+// Contracts checked by /verif (lsvc). This file contains comments only and is
+// compiled only with the build tag "verif".
+
+//@ func PutBasic
+//@   requires len(b) >= 24
+//@   nopanic
+//@   modifies bytes(b)
+//@   ensures ts: be64(b, 0) == uint64(ts)
+//@   ensures txn: be64(b, 8) == uint64(txnid)
+//@   ensures version: b[16] == 0
+//@   ensures flags: b[17] == uint8(flags)
+//@   ensures reserved: b[18] == 0 && b[19] == 0 && b[20] == 0 && b[21] == 0
+//@   ensures count: b[22] == 0 && b[23] == 0
+//@   ensures tail_unchanged: unchangedOutside(b, 0, 24)
+
+//@ func Parse
+//@   nopanic
+//@   pure
+//@   let ne = int(be16(val, 22))
+//@   ensures ok_iff: iff(err == nil, len(val) >= 24 && val[16] == 0 && len(val) >= 24 + 8*ne)
+//@   ensures err_kind: err != nil ==> err == ErrTooShort || err == ErrVersion
+//@   ensures too_short: len(val) < 24 ==> err == ErrTooShort
+//@   ensures bad_version: len(val) >= 24 && val[16] != 0 ==> err == ErrVersion
+//@   ensures fields: err == nil ==> uint64(header.Timestamp) == be64(val, 0) && uint64(header.TxnID) == be64(val, 8) && header.Version == 0 && uint8(header.Flags) == val[17] && header.NumExtra == ne
+//@   ensures value_after_extensions: err == nil ==> sameSlice(value, val[24+8*ne:])
+//@   ensures extra: err == nil && ne > 0 ==> sameSlice(header.Extra, val[24:24+8*ne])
+//@   ensures value_nil_on_error: err != nil ==> isnil(value)
+
+//@ func Skip
+//@   nopanic
+//@   pure
+//@   let ne = int(be16(val, 22))
+//@   ensures ok_iff: iff(err == nil, len(val) >= 24 && val[16] == 0 && len(val) >= 24 + 8*ne)
+//@   ensures err_kind: err != nil ==> err == ErrTooShort || err == ErrVersion
+//@   ensures same_as_Parse: err == nil ==> sameSlice(value, val[24+8*ne:])
+//@   ensures value_nil_on_error: err != nil ==> isnil(value)
+
+//@ func getNumExtra
+//@   inline
+
+//@ func (Flags) IsDeleted
+//@   inline
+
+//@ func (Flags) Masked
+//@   inline
